@@ -190,7 +190,7 @@ pub fn c02_parts(ctx: &mut Ctx) {
     let open = Open::load();
     for (part, variant, total) in [("rr.hold.local", Variant::Local, ctx.scale(3000u64, 40_000)), ("rr.hold.ipc", Variant::Ipc, ctx.scale(320u64, 6_000))] {
         let excl = Excl::default();
-        let ro = RunOpts { opts: Opts { address_probe: true, canary: true, check_log: false }, final_probe: true, probe_cycles: ctx.scale(40, 120) };
+        let ro = RunOpts { opts: Opts { address_probe: true, canary: true, check_log: false, recheck_after_limit: false }, final_probe: true, probe_cycles: ctx.scale(40, 120) };
         ctx.proptest(part, total, hold_case_strategy(70), |case, obs| {
             let s = run_case(variant, case, &ro, &open, obs)?;
             excl.add(&s);
@@ -254,7 +254,7 @@ fn policy_case_strategy(p: policy::Policy, n: usize) -> impl Strategy<Value = Po
 pub fn c08_parts(ctx: &mut Ctx) {
     let open = Open::load();
     let log = crate::pubsub::logcap::install();
-    let ro = RunOpts { opts: Opts { address_probe: true, canary: true, check_log: log }, final_probe: false, probe_cycles: 0 };
+    let ro = RunOpts { opts: Opts { address_probe: true, canary: true, check_log: log, recheck_after_limit: true }, final_probe: false, probe_cycles: 0 };
     let nt = |s: &Summary| s.limit_lifted || s.saturated_success;
     for (part, variant, pol, total) in [
         ("rr.saturate", Variant::Local, policy::Policy::Saturate, ctx.scale(1200u64, 24_000)),
